@@ -43,6 +43,7 @@ func init() {
 		Rule{ID: "R17d", Doc: "handshake before use", Floor: 3, Run: r17d},
 		Rule{ID: "R17e", Doc: "delimiter-strip bounds", Floor: 1, AllVariants: true, Run: r17e},
 		Rule{ID: "R17f", Doc: "default ports and dial plumbing", Floor: 12, AllVariants: true, Run: r17f},
+		Rule{ID: "R17g", Doc: "options are wired from the same-named configuration fields (module-wide)", Floor: 5, Run: rWiring()},
 	)
 }
 
@@ -471,6 +472,54 @@ func fieldReads(c *core.Ctx, tname, fname string, exclude func(fn *ssa.Function)
 	return out
 }
 
+// otherSuccessConditions lists the branch conditions dominating `at` (other than the named option) whose opposite
+// edge can still reach a successful return — i.e. conditions under which the function succeeds without executing `at`.
+func otherSuccessConditions(fn *ssa.Function, at ssa.Instruction, option string) []string {
+	var out []string
+	b := at.Block()
+	for d := b; d != nil; d = d.Idom() {
+		id := d.Idom()
+		if id == nil {
+			break
+		}
+		iff, ok := id.Instrs[len(id.Instrs)-1].(*ssa.If)
+		if !ok {
+			continue
+		}
+		for k, s := range id.Succs {
+			e := core.CondEdge{If: iff, From: id, To: s, True: k == 0}
+			if s != d || !core.EdgeDominates(e, b) {
+				continue
+			}
+			if strings.Contains(core.Expr(iff.Cond), option) {
+				continue
+			}
+			other := id.Succs[1-k]
+			// can the other edge reach a return whose error result is nil?
+			okRet := false
+			for _, ret := range returnsOf(fn) {
+				rs := core.ReturnResults(ret)
+				if len(rs) == 0 {
+					continue
+				}
+				last := rs[len(rs)-1]
+				success := core.IsNilConst(last)
+				if !success {
+					continue
+				}
+				first := other.Instrs[0]
+				if first == ssa.Instruction(ret) || core.Reach(fn, first, func(in ssa.Instruction) bool { return in == ssa.Instruction(ret) }, func(in ssa.Instruction) bool { return in == at }) != nil {
+					okRet = true
+				}
+			}
+			if okRet {
+				out = append(out, fmt.Sprintf("%s=%v", core.Expr(iff.Cond), k == 0))
+			}
+		}
+	}
+	return out
+}
+
 func r17a(c *core.Ctx) {
 	notTemplate := func(fn *ssa.Function) bool { return fn.Name() == "genConfigTemplate" }
 	for _, tn := range []string{"TlsConfig", "UpstreamConfig"} {
@@ -536,6 +585,10 @@ func r17a(c *core.Ctx) {
 	} else {
 		k, _ := core.ConstInt(ca.Val)
 		c.Check(k == 4 && hasCond(ca.Block(), "cfg.VerifyClientCert", true), "effect:verify_client_cert", ca.Pos(), mk, "verify_client_cert -> tls.Config.ClientAuth = RequireAndVerifyClientCert (4), exactly when the option is set", fmt.Sprintf("value %d; %s", k, condList(ca.Block())))
+		// …and under no other condition: every other branch condition that dominates the store only separates it from
+		// error returns (a second option that has to be set as well would silently disable client verification)
+		extra := otherSuccessConditions(mk, ca, "cfg.VerifyClientCert")
+		c.Check(len(extra) == 0, "effect:verify_client_cert-unconditional", ca.Pos(), mk, "client verification depends on verify_client_cert alone (no other option has to be set for it to take effect)", strings.Join(extra, "; "))
 		cc := one("ClientCAs")
 		okCC := cc != nil && hasCond(cc.Block(), "cfg.VerifyClientCert", true) && (strings.Contains(core.Expr(cc.Val), "RootCAs") || strings.Contains(core.Expr(cc.Val), "loadCA(cfg.CA)"))
 		c.Check(okCC, "effect:verify_client_cert-ca", mk.Pos(), mk, "client certificates are verified against the configured CA (ClientCAs = the pool loaded from `ca`)", "")
